@@ -10,18 +10,18 @@ import (
 )
 
 // C18 facts (coarse on purpose, so that renames do not trip them):
-//   * MinResourcePercentage / MaxResourcePercentage (defaults filled in by newThresholds),
-//   * processOneNodePool: how many top-level `if … { …; return … }` guards syntactically precede the
+//   - MinResourcePercentage / MaxResourcePercentage (defaults filled in by newThresholds),
+//   - processOneNodePool: how many top-level `if … { …; return … }` guards syntactically precede the
 //     evictPodsFromSourceNodes call (the early exits of the model's runRound + the two input guards),
-//   * evictPods: inside the pod loop, the guards that precede the podEvictor.Evict call — the function
+//   - evictPods: inside the pod loop, the guards that precede the podEvictor.Evict call — the function
 //     called in each condition and how the guard leaves (return / continue) — and whether the Evict call
 //     sits in the else-branch of `if dryRun`.
-//   * which functions of the package call GetNodeRawAllocatableFromNode (the capacity every percentage formula
+//   - which functions of the package call GetNodeRawAllocatableFromNode (the capacity every percentage formula
 //     divides by) and which functions read `.Status.Allocatable` at all (only the fallback may),
-//   * getNodeUsage: how prodPodsMap is indexed (by a key variable / by a field) and the fmt.Sprintf shapes that
+//   - getNodeUsage: how prodPodsMap is indexed (by a key variable / by a field) and the fmt.Sprintf shapes that
 //     build the key (format string + the field names of the arguments),
-//   * processOneNodePool: the detector cache (pl.<field>) handed to every filterRealAbnormalNodes /
-//     resetNodesAsNormal / tryMarkNodesAsNormal call at the top level, in source order, and the set of detector
+//   - processOneNodePool: the detector cache (pl.<field>) handed to every filterRealAbnormalNodes /
+//     resetNodesAsNormal / tryMarkNodesAsNormal call at the top level (as a sorted multiset), and the set of detector
 //     caches referenced inside the continueEvictionCond closure.
 func init() {
 	extractors["C18"] = func(e *ext) {
@@ -193,10 +193,40 @@ func c18MoreFacts(e *ext) {
 	// ---- getNodeUsage: the prod lookup table
 	var idxKinds, sprintfs []string
 	if fd := e.funcDecl(d, "", "getNodeUsage"); fd != nil && fd.Body != nil {
+		// the lookup table is recognised by its type (the only `make(map[string]*corev1.Pod)` of the function), not its name
+		podMaps := map[string]bool{}
+		ast.Inspect(fd.Body, func(n ast.Node) bool {
+			as, ok := n.(*ast.AssignStmt)
+			if !ok || len(as.Lhs) != 1 || len(as.Rhs) != 1 {
+				return true
+			}
+			c, ok := as.Rhs[0].(*ast.CallExpr)
+			if !ok || calleeName(c) != "make" || len(c.Args) == 0 {
+				return true
+			}
+			mt, ok := c.Args[0].(*ast.MapType)
+			if !ok {
+				return true
+			}
+			if k, ok := mt.Key.(*ast.Ident); !ok || k.Name != "string" {
+				return true
+			}
+			if st, ok := mt.Value.(*ast.StarExpr); ok {
+				if sel, ok := st.X.(*ast.SelectorExpr); ok && sel.Sel.Name == "Pod" {
+					if id, ok := as.Lhs[0].(*ast.Ident); ok {
+						podMaps[id.Name] = true
+					}
+				}
+			}
+			return true
+		})
+		if len(podMaps) != 1 {
+			e.fail("getNodeUsage: expected exactly one map[string]*corev1.Pod, found %d", len(podMaps))
+		}
 		ast.Inspect(fd.Body, func(n ast.Node) bool {
 			switch x := n.(type) {
 			case *ast.IndexExpr:
-				if id, ok := x.X.(*ast.Ident); ok && id.Name == "prodPodsMap" {
+				if id, ok := x.X.(*ast.Ident); ok && podMaps[id.Name] {
 					switch k := x.Index.(type) {
 					case *ast.Ident:
 						idxKinds = append(idxKinds, "var")
@@ -272,6 +302,8 @@ func c18MoreFacts(e *ext) {
 			})
 		}
 	}
+	// as a multiset (sorted): the node-level and prod-level calls are independent statements that may be reordered
+	sort.Strings(topUse)
 	fmt.Fprintf(&e.out, "def detectorCacheUse : List String := %s\n", c18LeanList(topUse))
 	fmt.Fprintf(&e.out, "def continueCondCaches : List String := %s\n", c18LeanList(closureCaches))
 }
